@@ -36,7 +36,7 @@ func resolveOne(mode int, a, b, ln uint64) resCase {
 }
 
 func c11Resolve(g *rng) {
-	L := uint64(20)
+	L := uint64(14)
 	if thorough() {
 		L = 64
 	}
@@ -68,7 +68,7 @@ func c11Resolve(g *rng) {
 			}
 		}
 	}
-	n := 2000
+	n := 1000
 	if thorough() {
 		n = 40000
 	}
